@@ -213,6 +213,8 @@ VARIANTS = [
     V("datetime results cast back only when they are still integers", ("C11",), "R-ROUNDTRIP", "core.py", '        if is_npdatetime:\n            result = result.astype(datetime_dtype)', '        if is_npdatetime and result.dtype.kind in "iu":\n            result = result.astype(datetime_dtype)', must_mention="datetime"),
     # ---------------- R-PAIRS[transpose] (C07)
     V("grouper dims reordered with the inverse permutation", ("C07",), "R-PAIRS[transpose]", "xarray.py", '        order = [dims.index(d) for d in core_dims[0] if d in dims]\n', '        target = [d for d in core_dims[0] if d in dims]\n        order = [target.index(d) for d in dims]\n', must_mention="inverse"),
+    # ---------------- R-FILLWIDEN (C05, C11)
+    V("dtype-preserving reductions return before the fill value is considered", ("C05", "C11"), "R-FILLWIDEN", "xrdtypes.py", '        if not preserves_dtype:\n            dtype = _maybe_promote_int(array_dtype)\n        else:\n            dtype = array_dtype\n', '        if preserves_dtype:\n            return array_dtype\n        dtype = _maybe_promote_int(array_dtype)\n', must_mention="return"),
     # ---------------- R-LOOPSTORE (C09, C19)
     V("cohort map overwrites a repeated block set", ("C09", "C19"), "R-LOOPSTORE", "core.py", '        merged_cohorts[chunk] = sorted(merged_cohorts.get(chunk, []) + cohort)', '        merged_cohorts[chunk] = cohort', must_mention="merged_cohorts"),
     V("twin: cohort map merges under an explicit membership test", ("C09", "C19", "C02"), "", "core.py", '        merged_cohorts[chunk] = sorted(merged_cohorts.get(chunk, []) + cohort)',
